@@ -111,7 +111,8 @@ fn drain_op(&mut self, frac: u64, cont: u64) -> Result<(), Bad> {
     let s = &mut self.slots[self.cur];
     let total = s.model.len();
     let prefix = frac_to(frac, total);
-    let cont = if cont % 2 == 0 { 5 } else { 0 };
+    // dropped early, or consumed by next / fold / for_each / count
+    let cont = if cont % 2 == 0 { 5 } else { [0, 1, 2, 4][((frac >> 3) % 4) as usize] };
     if prefix > 0 && prefix < total && cont == 5 {
         self.labels |= dump::L_DRAIN_CUT;
     }
@@ -275,6 +276,7 @@ fn clone_op(&mut self, from_other: bool) -> Result<(), Bad> {
     let (dst, src): (&mut Slot<K, V>, &Slot<K, V>) = if from_other { (a, &*b) } else { (b, &*a) };
     let dd = Self::dump_of(&dst.map);
     let sd = Self::dump_of(&src.map);
+    let clones_before = world::counts()[Class::CloneV as usize];
     if from_other {
         if dd.bucket_mask != sd.bucket_mask || dd.n_deleted() > 0 {
             self.labels |= dump::L_CLONE_FROM_DIFF;
@@ -282,6 +284,12 @@ fn clone_op(&mut self, from_other: bool) -> Result<(), Bad> {
         dst.map.clone_from(&src.map);
     } else {
         dst.map = src.map.clone();
+    }
+    // the value types are not `Copy` (with or without drop glue): every stored value must have
+    // gone through `Clone::clone`
+    let clone_calls = world::counts()[Class::CloneV as usize] - clones_before;
+    if (clone_calls as usize) < src.model.len() {
+        bad!("C11", "clone-without-Clone", "clone{} of {} pairs called V::clone only {clone_calls} times", if from_other { "_from" } else { "" }, src.model.len());
     }
     dst.model = src.model.clone();
     dst.plan = src.plan;
@@ -317,6 +325,19 @@ fn eq_op(&mut self) -> Result<(), Bad> {
     if ab != want || ba != want {
         bad!("C11", "eq-wrong", "a == b is {ab}, b == a is {ba}, mathematically {want} (len {} vs {})", a.model.len(), b.model.len());
     }
+    // the same object on both sides
+    #[allow(clippy::eq_op)]
+    if !(a.map == a.map) || !(b.map == b.map) {
+        bad!("C11", "eq-wrong", "a map does not compare equal to itself");
+    }
+    // values whose == is never true (NaN-like): maps are equal only if they hold no pair at all
+    world::with(|w| w.val_eq_never = true);
+    #[allow(clippy::eq_op)]
+    let (aa, ab2) = (a.map == a.map, a.map == b.map);
+    world::with(|w| w.val_eq_never = false);
+    if aa != a.model.is_empty() || ab2 != (a.model.is_empty() && b.model.is_empty()) {
+        bad!("C11", "eq-wrong", "with values that never compare equal: a == a is {aa} (len {}), a == b is {ab2} (len {})", a.model.len(), b.model.len());
+    }
     Ok(())
 }
 
@@ -324,8 +345,12 @@ fn eq_op(&mut self) -> Result<(), Bad> {
 // C15
 
 fn get_many_op(&mut self, a: &[u64; crate::case::MAX_ARGS]) -> Result<(), Bad> {
-    let n = (a[0] % 5) as usize;
-    let ids: Vec<u32> = (0..n).map(|i| self.kid(a[1 + i])).collect();
+    let mut n = (a[0] % 5) as usize;
+    if n == 4 && a[1] % 3 == 0 {
+        // a long request list: 9 or 12 keys derived from the four arguments
+        n = if a[2] % 2 == 0 { 9 } else { 12 };
+    }
+    let ids: Vec<u32> = (0..n).map(|i| self.kid(a[1 + i % 4].wrapping_add((i / 4) as u64 * 7))).collect();
     let kv = a[5] % 2 == 1;
     let s = &mut self.slots[self.cur];
     let present: Vec<Option<usize>> = ids.iter().map(|id| Self::mpos(&s.model, *id)).collect();
@@ -384,7 +409,9 @@ fn get_many_op(&mut self, a: &[u64; crate::case::MAX_ARGS]) -> Result<(), Bad> {
         1 => call!(1),
         2 => call!(2),
         3 => call!(3),
-        _ => call!(4),
+        4 => call!(4),
+        9 => call!(9),
+        _ => call!(12),
     };
     match r {
         Err(p) => {
